@@ -1,6 +1,7 @@
 package rules
 
 import (
+	"fmt"
 	"go/token"
 	"strings"
 
@@ -26,7 +27,7 @@ func runC07(p *core.Prog, r *core.Report) {
 		return
 	}
 	// ---- R1 put path
-	r1 := r.Rule("C07.R1", "handleObjectWithAssociation: garbage marks and the tombstone counter only after objectLocked(target)==false and target is not a LOCK; lock counter only after status != tombstoned", 6)
+	r1 := r.Rule("C07.R1", "handleObjectWithAssociation: garbage marks and the tombstone counter only after objectLocked(target)==false and target is not a LOCK; lock counter only after status != tombstoned and, for an expired target (whose status hides the tombstone), no tombstone of its own", 6)
 	hfn := p.Func(mb + "handleObjectWithAssociation")
 	if hfn == nil {
 		r.Fatalf("C07.R1: handleObjectWithAssociation not found")
@@ -39,7 +40,18 @@ func runC07(p *core.Prog, r *core.Report) {
 		{Name: "target-type-not-lock", Match: fetch, Comps: []core.Comp{{Result: 0, Kind: core.NeConst, Const: tLock}}},
 		{Name: "target-not-tombstoned", Match: func(s core.Site) bool { return s.Name == mb+"objectStatus" }, Comps: []core.Comp{{Result: -1, Kind: core.NeConst, Const: stTomb}}},
 	}
-	der := []core.Derived{{Name: "target-is-not-a-lock", Alts: [][]string{{"target-type-unknown"}, {"target-type-not-lock"}}}}
+	stExp, okE := p.ConstInt(mb + "statusExpired")
+	if !okE {
+		r.Fatalf("C07.R1: statusExpired not found")
+		return
+	}
+	guards = append(guards,
+		core.Guard{Name: "target-not-expired", Match: func(s core.Site) bool { return s.Name == mb+"objectStatus" }, Comps: []core.Comp{{Result: -1, Kind: core.NeConst, Const: stExp}}},
+		core.Guard{Name: "target-has-no-tombstone", Match: func(s core.Site) bool { return s.Name == mb+"inGarbage" }, Comps: []core.Comp{{Result: -1, Kind: core.NeConst, Const: stTomb}}},
+	)
+	der := []core.Derived{{Name: "target-is-not-a-lock", Alts: [][]string{{"target-type-unknown"}, {"target-type-not-lock"}}},
+		// the status of an expired object says 'expired' whether or not it also has a tombstone
+		{Name: "no-tombstone-hidden-by-expiry", Alts: [][]string{{"target-not-expired"}, {"target-has-no-tombstone"}}}}
 	storeField := func(in ssa.Instruction, field string) bool {
 		st, ok := in.(*ssa.Store)
 		if !ok {
@@ -61,7 +73,7 @@ func runC07(p *core.Prog, r *core.Report) {
 		return "", false
 	}, Need: func(desc string) []string {
 		if desc == "diff.Lock" {
-			return []string{"target-not-tombstoned"}
+			return []string{"target-not-tombstoned", "no-tombstone-hidden-by-expiry"}
 		}
 		return []string{"target-not-locked", "target-is-not-a-lock"}
 	}})
@@ -133,6 +145,10 @@ func runC07(p *core.Prog, r *core.Report) {
 			Effect: core.CallTo("(*pkg/local_object_storage/engine.StorageEngine).processAddrDelete"),
 			Need:   func(string) []string { return []string{"not-locked-or-check-failed"} }})
 	}
+	// ---- R6 the engine-wide lock check asks every shard
+	r6 := r.Rule("C07.R6", "StorageEngine.isLocked says 'no lock' only after every shard was asked: the walk over the shards is left early only with 'locked' (a shard that cannot answer does not end it)", 1)
+	lockCheckAsksEveryShard(p, r, r6)
+	r.Explain += " (R6) the engine-wide lock check walks all shards and leaves the walk early only with the answer 'locked': a shard that fails to answer (no metabase) does not hide a lock another shard knows."
 	// ---- R4 callers of deleteObjs
 	r4 := r.Rule("C07.R4", "Shard.deleteObjs (physical removal) is called only from Delete, removeGarbage, collectExpiredObjects (expired tombstones) and ReviveObject", 4)
 	core.CheckCallers(p, r4, p.FuncsIn("pkg/local_object_storage/..."), []core.CallerRule{{Sink: "(*pkg/local_object_storage/shard.Shard).deleteObjs", MinSites: 4, Allowed: map[string]string{
@@ -180,6 +196,16 @@ func intConstOf(v ssa.Value) (int64, bool) {
 
 // lockLookupRule: shared by C07.R5 and C01.R5.
 func lockLookupRule(p *core.Prog, r *core.Report, r5 *core.RuleH, tLock, stAvail int64) {
+	// the generic lookup skips expired associates only when some caller asks at a real epoch (today every caller passes 0:
+	// tombstones never expire for this purpose), so the liveness clause is demanded only then
+	epochMatters := false
+	for _, s := range core.CallSites(p.Funcs(), func(s core.Site) bool { return s.Name == mb+"associatedWithTypedObject" }) {
+		if a := s.Call.Common().Args; len(a) > 0 {
+			if z, isZ := intConstOf(a[0]); !isZ || z != 0 {
+				epochMatters = true
+			}
+		}
+	}
 	if yfn := p.Func(mb + "associatedWithTypedObject$1"); yfn == nil {
 		r.Fatalf("C07.R5: associatedWithTypedObject range body not found")
 	} else {
@@ -216,12 +242,102 @@ func lockLookupRule(p *core.Prog, r *core.Report, r5 *core.RuleH, tLock, stAvail
 				return "", false
 			}
 			return "stop-iteration?", true
-		}, Need: func(string) []string { return []string{"is-wanted-type", "live"} }})
+		}, Need: func(string) []string {
+			if !epochMatters {
+				return []string{"is-wanted-type"}
+			}
+			return []string{"is-wanted-type", "live"}
+		}})
 	}
-	if lfn := p.Func(mb + "objectLocked"); lfn == nil {
+	lfn := p.Func(mb + "objectLocked")
+	if lfn == nil {
 		r.Fatalf("C07.R5: objectLocked not found")
-	} else {
+		return
+	}
+	if body := p.Func(mb + "objectLocked$1"); body != nil {
+		// objectLocked walks the associated objects itself: the walk ends only at a LOCK that is live and not removed
+		isEpochLoad := func(v ssa.Value) bool {
+			u, ok := v.(*ssa.UnOp)
+			if !ok || u.Op != token.MUL {
+				return false
+			}
+			fv, ok := u.X.(*ssa.FreeVar)
+			if !ok {
+				return false
+			}
+			rv := core.ResolveFreeVar(fv)
+			return rv != nil && core.ParamIndex(lfn, rv) == 0
+		}
+		ofCandidate := func(c ssa.CallInstruction, i int) bool {
+			a := c.Common().Args
+			return len(a) > i && len(body.Params) == 1 && a[i] == ssa.Value(body.Params[0])
+		}
+		bg := []core.Guard{
+			{Name: "is-lock", Match: func(s core.Site) bool {
+				if s.Name != mb+"isObjectType" || !ofCandidate(s.Call, 1) {
+					return false
+				}
+				k, isK := intConstOf(s.Call.Common().Args[2])
+				return isK && k == tLock
+			}, Comps: []core.Comp{{Result: -1, Kind: core.IsTrue}}},
+			{Name: "not-expired", Match: func(s core.Site) bool {
+				return s.Name == mb+"isExpired" && ofCandidate(s.Call, 1) && isEpochLoad(s.Call.Common().Args[2])
+			}, Comps: []core.Comp{{Result: -1, Kind: core.IsFalse}}},
+			{Name: "expiry-ignored", Comps: []core.Comp{{Result: -1, Kind: core.IsFalse}}, Value: func(_ *ssa.Function, v ssa.Value) bool {
+				bo, ok := v.(*ssa.BinOp)
+				if !ok {
+					return false
+				}
+				z, isZ := intConstOf(bo.Y)
+				return bo.Op == token.GTR && isEpochLoad(bo.X) && isZ && z == 0
+			}},
+			{Name: "lock-not-removed", Match: func(s core.Site) bool { return s.Name == mb+"inGarbage" && ofCandidate(s.Call, 1) },
+				Comps: []core.Comp{{Result: -1, Kind: core.EqConst, Const: stAvail}}},
+		}
+		bd := []core.Derived{{Name: "live", Alts: [][]string{{"not-expired"}, {"expiry-ignored"}}}}
+		core.CheckEffectsFn(p, r5, body, core.EffectRule{Guards: bg, Derived: bd, Min: 1, Effect: func(p *core.Prog, in ssa.Instruction) (string, bool) {
+			ret, ok := in.(*ssa.Return)
+			if !ok || len(ret.Results) != 1 {
+				return "", false
+			}
+			if c, ok := ret.Results[0].(*ssa.Const); ok {
+				if b, isB := constBool(c); isB && !b {
+					return "stop-iteration", true
+				}
+				return "", false
+			}
+			return "stop-iteration?", true
+		}, Need: func(string) []string { return []string{"is-lock", "live", "lock-not-removed"} }})
+		// the walk is over the objects associated with the asked id
+		its := core.CallSites([]*ssa.Function{lfn}, func(s core.Site) bool { return s.Name == mb+"iterAttrVal" })
+		for _, s := range its {
+			a := s.Call.Common().Args
+			r5.Check(len(a) == 3 && core.RootParam(lfn, a[2]) == 2, core.FuncName(lfn)+"#lookup-args", p.InstrPos(s.Call),
+				"walks the objects associated with the asked id", "objectLocked does not walk the associates of its own id")
+		}
+		if len(its) == 0 {
+			r5.Bad(core.FuncName(lfn)+"#lookup-args", p.Pos(lfn.Pos()), "objectLocked walks nothing")
+		}
+		// and answers true only through the walk
+		for _, b := range lfn.Blocks {
+			ret, ok := b.Instrs[len(b.Instrs)-1].(*ssa.Return)
+			if !ok || len(ret.Results) != 1 {
+				continue
+			}
+			if c, isC := ret.Results[0].(*ssa.Const); isC {
+				bv, _ := constBool(c)
+				r5.Check(!bv, core.FuncName(lfn)+"#return-const", p.InstrPos(ret), "answers false when the walk found nothing", "objectLocked answers true without having found a lock")
+			}
+		}
+		return
+	}
+	{
 		sites := core.CallSites([]*ssa.Function{lfn}, func(s core.Site) bool { return s.Name == mb+"associatedWithTypedObject" })
+		if len(sites) > 0 {
+			// the lookup ends at the first live LOCK whether or not that lock is removed, so asking afterwards whether
+			// the one it returned is removed lets a removed lock hide the live ones behind it
+			r5.Bad(core.FuncName(lfn)+"#first-lock-only", p.InstrPos(sites[0].Call), "objectLocked takes the first live lock the generic lookup returns and only then asks whether that lock is removed: a force-removed lock that sorts first hides every other live lock of the object")
+		}
 		for _, s := range sites {
 			a := s.Call.Common().Args
 			if len(a) != 4 {
@@ -267,5 +383,56 @@ func lockLookupRule(p *core.Prog, r *core.Report, r5 *core.RuleH, tLock, stAvail
 			}
 			return []string{"lock-found", "returns-whether-the-lock-itself-is-available"}
 		}})
+	}
+}
+
+// lockCheckAsksEveryShard: shared by C07.R6 and C08.R6. In StorageEngine.isLocked every return whose first result is
+// not the constant true is reached from the per-shard call only through the loop header (i.e. after the walk ended).
+func lockCheckAsksEveryShard(p *core.Prog, r *core.Report, h *core.RuleH) {
+	fn := p.Func("(*pkg/local_object_storage/engine.StorageEngine).isLocked")
+	if fn == nil {
+		r.Fatalf("%s: StorageEngine.isLocked not found", h.ID())
+		return
+	}
+	name := core.FuncName(fn)
+	asks := core.CallSites([]*ssa.Function{fn}, func(s core.Site) bool { return strings.HasSuffix(s.Name, "shard.Shard).IsLocked") })
+	if len(asks) != 1 {
+		h.Bad(name+"#walk", p.Pos(fn.Pos()), fmt.Sprintf("expected one per-shard IsLocked call, found %d", len(asks)))
+		return
+	}
+	cb := asks[0].Call.Block()
+	var hdr *ssa.BasicBlock
+	for _, b := range fn.Blocks {
+		if !b.Dominates(cb) {
+			continue
+		}
+		for _, pr := range b.Preds {
+			if b.Dominates(pr) && (hdr == nil || hdr.Dominates(b)) {
+				hdr = b
+			}
+		}
+	}
+	if hdr == nil || !inCycle(cb) {
+		h.Bad(name+"#walk", p.InstrPos(asks[0].Call), "the per-shard lock question is not asked in a loop over the shards")
+		return
+	}
+	n := 0
+	for _, b := range fn.Blocks {
+		ret, ok := b.Instrs[len(b.Instrs)-1].(*ssa.Return)
+		if !ok || len(ret.Results) != 2 {
+			continue
+		}
+		if c, isC := ret.Results[0].(*ssa.Const); isC {
+			if bv, isB := constBool(c); isB && bv {
+				continue
+			}
+		}
+		n++
+		early := b == cb || reachesAvoiding(cb, b, map[*ssa.BasicBlock]bool{hdr: true}, nil)
+		h.Check(!early, name+"#no-lock-answer", p.InstrPos(ret), "given only after the walk over the shards ended",
+			"StorageEngine.isLocked answers 'no lock' (or gives up) in the middle of the walk: shards are visited in random order, so a shard that cannot answer hides a lock a healthy shard knows and expired objects handling removes the locked object")
+	}
+	if n == 0 {
+		h.Bad(name+"#no-lock-answer", p.Pos(fn.Pos()), "no 'not locked' return found")
 	}
 }
